@@ -49,6 +49,10 @@ CLAIMED["C20"] = ("event-sequence derivation per loop iteration by abstract inte
     "'tag candidates only after fill_tags on the same sentence' typestate incl. the clap requires wiring; pipeline order per line; complete "
     "decision of evaluate's confusion/Nagata counter tables over all label pairs and of the metric formula trees; no I/O Result unwrapped/ignored. "
     "Byte-level equality with the library output and clap/IO behaviour are not decided.", "DESIGN.md §4 C20")
+CLAIMED["C06"] = ("finite-domain abstract interpretation (argmax ordering, candidate-count classes), linear forms, taint from decoded model fields to panicking indexes, kill-before-use of automaton states",
+    "Complete decision of the tie-breaking clause (strict >, first index, slice-relative index) and of the score-slot consumption agreement "
+    "between predictor, accessor and trainer over the classes {0,1,>=2}; structural decision of state-vector preparation, predict_tags call/slot "
+    "forms (twin blocks), sanitisation of model-derived indexes and preparation of the stored tag scores on every path. Numeric sums are not decided.", "DESIGN.md §4 C06")
 NOT_YET = {}
 
 def main():
